@@ -13,6 +13,8 @@ Proved here (for every content, every character width — code units are `Nat`):
   `≤ length`, reports "no match" only at the end of the content, and every match moves forward.
 * `expr_scan_safe`  the expression scanner inside a tag performs no out-of-range read.
 * `render_safe_of_wf`  rendering a well-formed tag tree performs no out-of-range access.
+* `parse_wf_inline`, `render_safe_inline`  stages 1+2 of `parse_wf` (var, raw, math): no out-of-range
+  access in parse + render for contents whose tags are `{var:}`, `{raw:}`, `{math:}`.
 * `parse_wf_varraw`, `render_safe_varraw`  stage 1 of `parse_wf`: contents whose only tags are
   `{var:}` / `{raw:}` parse to a well-formed tree, hence parse+render is free of out-of-range accesses.
 * `parse_text`, `render_text`  content without `{` and `<` parses to no tags without a failing read
@@ -120,6 +122,27 @@ theorem render_safe_varraw {R : Type} [RealLike R] (cx : RCtx R) (hg : cx.guardI
 /-- non-vacuity: `x{var:a}}{raw:b[0]}` satisfies the hypothesis -/
 example : OnlyVarRaw ("x{var:a}}{raw:b[0]}".toList.map Char.toNat) :=
   onlyVarRaw_of_check _ (by decide)
+
+/-- `parse_wf`, stages 1+2 (var / raw / math — the staged target of the design): if from no
+offset the Finder reports a match above `{math:` (`OnlyUpTo 4`; decidable form `onlyUpToB 4`), the
+tag scanner — including the expression scanner on every `{math:…}` with any nested `{var:…}` and
+parentheses — makes no out-of-range read and what it returns is well-formed. -/
+theorem parse_wf_inline {R : Type} (cfg : ScanCfg R) (c : List Nat)
+    (hn : c.length + 16 < 4294967296) (h : OnlyUpTo 4 c) :
+    Safe (parse cfg c) (fun tags => wf c.length tags = true) :=
+  Qentem.Tmpl.parse_wf_inline cfg c hn h
+
+/-- End-to-end for the inline sub-language (text, `{var:}`, `{raw:}`, `{math:}`): parse + render
+makes no out-of-range access, for every value, formatter and escape setting. -/
+theorem render_safe_inline {R : Type} [RealLike R] (cx : RCtx R) (hg : cx.guardIndexRead = true)
+    (cfg : ScanCfg R) (hn : cx.content.length + 16 < 4294967296) (h : OnlyUpTo 4 cx.content)
+    (fuel : Nat) :
+    Safe ((parse cfg cx.content).bind (fun tags => renderTop cx tags fuel)) (fun _ => True) :=
+  Qentem.Tmpl.render_safe_inline cx hg cfg hn h fuel
+
+/-- non-vacuity: `{math:({var:a}+1)*2}}{var:b}` satisfies the hypothesis -/
+example : OnlyUpTo 4 ("{math:({var:a}+1)*2}}{var:b}".toList.map Char.toNat) :=
+  onlyUpTo_of_check 4 _ (by decide)
 
 /-- Open statement: what `parse` returns is well-formed (`parse_wf`).  Evaluated on every generated
 and malformed template of `checks/c01.py` through the driver op `tplwf`. -/
